@@ -12,7 +12,7 @@ use crate::{
 pub fn run(tier: &str, seed: u64, only: Option<&str>) -> Run {
     let mut run = Run::default();
     let thorough = tier == "thorough";
-    let (n_random, prefixes): (usize, &[usize]) = if thorough { (1500, &[1, 2, 3, 6, 20]) } else { (160, &[2, 5]) };
+    let (n_random, prefixes): (usize, &[usize]) = if thorough { (12000, &[1, 2, 3, 6, 20, 60]) } else { (900, &[2, 5]) };
     let mut rng = Rng::new(seed ^ 0x15);
     let ex2 = exhaustive_ops(2);
     let ex3 = exhaustive_ops(3);
